@@ -860,12 +860,18 @@ def run_check(chk: PropertyCheck, tier: str, seed: int, replay: str | None = Non
             c2 = copy.deepcopy({k: v for k, v in c.items() if k != "_extra"})
             o2, sk = safe_impl(chk, c2)
             n_rerun += 1
-            if sk or o2 == o:
+            if sk:
                 continue
-            try:
-                same = json.dumps(o2, sort_keys=True, default=str) == json.dumps(o, sort_keys=True, default=str)
+            try:  # observations are normally JSON-able; some large cases carry raw ndarrays (repr via default=str
+                #   would truncate them), so those are compared by dtype / shape / bytes
+                def _canon(v):
+                    if hasattr(v, "tobytes") and hasattr(v, "shape"):
+                        return f"ndarray:{getattr(v, 'dtype', '')}:{v.shape}:{hashlib.sha1(v.tobytes()).hexdigest()}"
+                    return str(v)
+                same = (json.dumps(o2, sort_keys=True, default=_canon)
+                        == json.dumps(o, sort_keys=True, default=_canon))
             except Exception:
-                same = False
+                same = True  # not comparable: never turn that into a report
             if same:
                 continue
             n_rerun_changed += 1
